@@ -638,3 +638,26 @@ Theorem C10_forward_native_names_from_source :
   mem_text [107; 105; 110; 100]%Z NODE_ATTR_NAMES = false /\ mem_text [107; 105; 110; 100]%Z TYPED_NODE_EXTRA_ATTR_NAMES = true.
 Proof. vm_compute. repeat split. Qed.
 Print Assumptions C10_forward_native_names_from_source.
+
+(* ---- Node.__eq__ and hash(node) (part NODEMISC; every ordered pair of nodes is compared on every case) ---- *)
+(* `node == other` compares the DATA objects: an equivalence on nodes that ignores identity, kind, data_id, meta and position
+   (so clones, and different nodes holding equal-comparing data, are ==; use `is` for identity); a node equals its own data object *)
+Theorem C10_misc_node_eq : 
+  (forall a, MiscNode.node_eq a a = true) /\ (forall a b, MiscNode.node_eq a b = MiscNode.node_eq b a) /\
+  (forall a b c, MiscNode.node_eq a b = true -> MiscNode.node_eq b c = true -> MiscNode.node_eq a c = true) /\
+  (forall id1 id2 i1 i2 ch1 ch2, i_eqc i1 = i_eqc i2 -> MiscNode.node_eq (T id1 i1 ch1) (T id2 i2 ch2) = true) /\
+  (forall a, MiscNode.node_eq_obj a (i_eqc (rinfo a)) = true).
+Proof.
+  destruct MiscNodeProofs.node_eq_equivalence as (R & S & Tr).
+  exact (conj R (conj S (conj Tr (conj MiscNodeProofs.node_eq_data_only MiscNodeProofs.node_eq_own_data)))).
+Qed.
+Print Assumptions C10_misc_node_eq.
+
+(* Node defines __eq__ and no __hash__: hash(node) raises TypeError for every node (nodes cannot be set members or dict keys) *)
+Theorem C10_misc_node_unhashable : forall (X : Type) (n : X), MiscNode.node_hash n = inl MiscNode.E_TYPE.
+Proof. exact MiscNodeProofs.node_hash_always_raises. Qed.
+Print Assumptions C10_misc_node_unhashable.
+
+Example C10_misc_node_eq_ex :
+  MiscNode.node_eq (T 1 (I 0 7 0 true [97]%Z (DInt 1) None []) []) (T 2 (I 5 7 0 true [97]%Z (DStr [120]%Z) (Some [107]%Z) []) [T 3 (I 1 1 1 true [] (DInt 2) None []) []]) = true.
+Proof. reflexivity. Qed.
